@@ -153,7 +153,7 @@ fn cfg_sections(rng: &mut Rng, e: &Engine) -> Vec<CfgSection> {
         v.push(CfgSection::Native { unbonding: unb, validators: (0..n).map(|_| rng.below(5) as u8).collect(), staker: rng.below(3) as u8, collector: rng.below(3) as u8, upper: rng.chance(1, 6) });
     }
     if mask & 16 != 0 {
-        v.push(CfgSection::Protocol { min_stake: *rng.pick(&[0u128, 1, 100, 1_000_000]), oracle: rng.chance(85, 100), channel: if rng.chance(1, 3) { rng.below(5000) } else { e.sw.channel }, spell: if rng.chance(1, 5) { 4 + rng.below(4) as u8 } else { rng.below(4) as u8 } });
+        v.push(CfgSection::Protocol { min_stake: *rng.pick(&[0u128, 1, 100, 1_000_000]), oracle: rng.chance(85, 100), channel: if rng.chance(1, 3) { rng.below(5000) } else { e.sw.channel }, spell: (if rng.chance(1, 5) { 4 + rng.below(4) as u8 } else { rng.below(4) as u8 }) + if rng.chance(1, 3) { 8 } else { 0 } });
     }
     v
 }
